@@ -219,6 +219,14 @@ static Level fam_nestings(int depth, int seqlen) {
                 if (seqlen >= 2) for (auto &b : uses) { if (a.size() + b.size() > 160) continue; cb(mk(pre, a + ";\n" + b));
                   if (seqlen >= 3 && a.size() + b.size() < 70) for (auto &c3 : uses) if (c3.size() < 50) cb(mk(pre, a + ";\n" + b + ";\n" + c3)); } }
             }
+            // depth ladder: the IF macro nested n deep in its THEN and in its ELSE slot, and SAVE nested n deep; a macro whose
+            // slot is filled with another macro's use
+            for (int n = 1; n <= 7; n++) for (int init = 0; init < 2; init++) {
+              std::string pre = std::string(IFLIB0) + "x0 := " + std::to_string(init) + ";\n";
+              std::string t = "x1 := x1 + 1", e = "x2 := x2 + 1", sv = "x1 := x1 + 2";
+              for (int i = 0; i < n; i++) { t = "IF x0 THEN " + t + " ELSE x3 := " + std::to_string(i) + " END"; e = "IF 0 THEN x3 := 9 ELSE " + e + " END"; sv = "SAVE x1 " + sv + " ; x1 := x1 + 1 RESTORE"; }
+              cb(mk(pre, t)); cb(mk(pre, e)); cb(mk(pre, sv)); cb(mk(pre, "SAVE x2 " + t + " RESTORE ;\n" + e));
+            }
             // two files defining temporaries on equal line numbers
             for (auto body : {"A x1 ; B x2", "B x1 ; A x1", "A x1 ; A x2 ; B x1", "A x1 ; B x1 ; A x1"}) {
               Case c; c.main = "main"; c.files["fa"] = "DEFINE A <ID> AS #0 := 1 ; $0 := #0 ENDDEF"; c.files["fb"] = "DEFINE B <ID> AS #0 := 2 ; $0 := $0 + #0 ENDDEF";
@@ -260,8 +268,12 @@ static Level fam_growth(bool thorough) {
 }
 static void oracle_C11_growth(const Case &c, vf::Stats &st) {
   st.add("cases"); Run r(c, c.budget); size_t got = r.mar.transformed_sequence.size(); bool err = r.has(Theo::ParseError::MACRO_APPLY_REACHED_MAX_PASSES);
-  bool geometric = c.files.at("growth").find("$0 , $0") != std::string::npos;
+  const std::string &src = c.files.at("growth");
+  bool geometric = src.find("$0 , $0") != std::string::npos;
   size_t want = geometric ? (size_t)(6ULL * (1ULL << c.budget) - 3) : (size_t)(4 + 96ULL * c.budget);  // incl. the EOF token
+  if (src.find("AS a ENDDEF\na") != std::string::npos && src.find("DEFINE b") == std::string::npos) want = 2;       // a -> a
+  else if (src.find("AS a b ENDDEF") != std::string::npos) want = 2 + (size_t)c.budget;                             // a -> a b
+  else if (src.find("DEFINE b AS a") != std::string::npos) want = 4;                                                // a <-> b
   st.nontrivial.insert(c.hash()); st.add("budget_exhausted"); st.max("tokens_after_expansion", (long long)got); st.outcomes.insert(vf::mix(got * 2 + err));
   if (got != want) { st.violation(c.key(), "after " + std::to_string(c.budget) + " rewriting steps the stream has " + std::to_string(got) + " tokens, " + std::to_string(want) + " expected (each step " + (geometric ? "doubles the slot" : "adds 96 tokens") + ")", c.json()); return; }
   if (!err) st.violation(c.key(), "rewriting was still possible after " + std::to_string(c.budget) + " steps (" + std::to_string(got) + " tokens) but no too-many-substitutions error was reported", c.json());
@@ -333,6 +345,30 @@ static Level fam_patterns(int k, bool lists_only = false) {
                 int i = 0; while (i < len && ++ix[i] == V) ix[i++] = 0; if (i == len) break; } } }};
 }
 
+// pattern-length ladder: k <V> k <V> ... with n slots (deterministic), the same ending in a list slot (not), and
+// alternating statement slots with distinct followers; the tables grow past 256 states
+static Level fam_pattern_ladder(int N) {
+  return {"pattern-length ladder n=1.." + std::to_string(N), [=](const CB &cb) {
+            std::vector<std::string> follow = {")", "THEN", "DO", ",", ":", "(", ":=", "foo", "1", "+"};
+            for (int n = 1; n <= N; n++) {
+              std::string det, inst, bad, pdet, pinst;
+              for (int i = 0; i < n; i++) { det += "k <V> "; inst += "k y "; pdet += "<P> " + follow[i % follow.size()] + " "; pinst += "STOP ; GOTO l " + follow[i % follow.size()] + " "; }
+              bad = det + "k <A> ";
+              for (auto pr : {std::make_pair(det + "k", inst + "k"), std::make_pair(bad, inst + "k y , 3"), std::make_pair("w " + pdet, "w " + pinst)}) {
+                std::string defs = "\nDEFINE " + pr.first + " AS zap ENDDEF\nDEFINE bar AS baz ENDDEF";
+                cb(mk(defs, "bar " + pr.second + " bar", 50));
+              }
+            } }};
+}
+static Level fam_budget_ladder() {
+  return {"budget ladder 1..1024 on non-growing and slowly growing self-reproducing sets", [=](const CB &cb) {
+            for (int b : {1, 2, 3, 7, 8, 9, 15, 16, 17, 31, 32, 33, 63, 64, 65, 127, 128, 255, 256, 257, 511, 1023, 1024}) {
+              { Case c = mk("DEFINE a AS a ENDDEF", "a", b); c.main = "growth"; c.files["growth"] = c.files["main"]; c.files.erase("main"); cb(c); }
+              { Case c = mk("DEFINE a AS a b ENDDEF", "a", b); c.main = "growth"; c.files["growth"] = c.files["main"]; c.files.erase("main"); cb(c); }
+              { Case c = mk("DEFINE a AS b ENDDEF DEFINE b AS a ENDDEF", "x a y", b); c.main = "growth"; c.files["growth"] = c.files["main"]; c.files.erase("main"); cb(c); }
+            } }};
+}
+
 int main(int argc, char **argv) {
   drv::Args args = drv::Args::parse(argc, argv); bool T = args.thorough();
   std::vector<Level> L; std::function<void(const Case &, vf::Stats &)> o; double limit = 60;
@@ -341,9 +377,9 @@ int main(int argc, char **argv) {
   else if (args.prop == "C10") { o = oracle_C10; L = {fam_nestings(1, 3), fam_nestings(2, 2)}; if (T) { L.push_back(fam_nestings(2, 3)); L.push_back(fam_nestings(3, 2)); } }
   else if (args.prop == "C11") {
     o = [](const Case &c, vf::Stats &st) { if (c.main == "growth") oracle_C11_growth(c, st); else if (c.budget == 1024) oracle_C11_compile(c, st); else oracle_C11(c, st); };
-    L = {fam_compile_divergent(), fam_growth(T), fam_budget(2, 4), fam_budget(3, 6)}; if (T) L.push_back(fam_budget(4, 8));
+    L = {fam_compile_divergent(), fam_growth(T), fam_budget_ladder(), fam_budget(2, 4), fam_budget(3, 6)}; if (T) L.push_back(fam_budget(4, 8));
   }
-  else if (args.prop == "C12") { o = oracle_C12; L = {fam_patterns(2), fam_patterns(3), fam_patterns(5, true)}; if (T) { L.push_back(fam_patterns(4)); L.push_back(fam_patterns(6, true)); } }
+  else if (args.prop == "C12") { o = oracle_C12; L = {fam_patterns(2), fam_pattern_ladder(T ? 16 : 10), fam_patterns(3), fam_patterns(5, true)}; if (T) { L.push_back(fam_patterns(4)); L.push_back(fam_patterns(6, true)); } }
   else { fprintf(stderr, "ERROR: unknown property %s\n", args.prop.c_str()); return 2; }
   return drv::run<Case>(args, L, o, {}, limit);
 }
